@@ -68,8 +68,20 @@ class Prop(BaseProp):
             loc1 = os.path.join(sb, "loc1", "proj")
             tree.write(loc1)
             cfg = os.path.join(sb, "cfg", "s.yaml")
-            fsrun.write_yaml(cfg, {"input": {"include_undocumented_function": rng.random() < 0.8,
-                                             "kwargs_doc_trigger_string": ":keyword"},
+            inset = {"include_undocumented_function": rng.random() < 0.8, "kwargs_doc_trigger_string": ":keyword"}
+            tops = [d for d in tree.subdirs("")]
+            if not single and tops and rng.random() < 0.3:
+                # a followed symbolic link that is an alias of a sibling directory: both routes are documented, whichever is
+                # listed first
+                os.symlink(rng.choice(tops), os.path.join(loc1, rng.choice(["zz_alias", "aa_alias", "Compat"])))
+                inset["follow_symlinks"] = True
+                res.count("trees_with_followed_directory_alias")
+            if rng.random() < 0.4:
+                # non-empty parameter strip patterns (anything computed per parameter list must not be shared between files)
+                inset["function_parameter_name_strip_regex"] = rng.choice(["^_", "_in$", "^p"])
+                inset["macro_parameter_name_strip_regex"] = rng.choice(["^_", "_in$", "^p"])
+                res.count("runs_with_strip_patterns")
+            fsrun.write_yaml(cfg, {"input": inset,
                                    "rst": {"file_extensions_in_titles": rng.random() < 0.3}})
             common = ["-s", cfg] + (["-p", prefix] if prefix else [])
             # exclude patterns (same in every variant): a glob matching several siblings, a bare name, and filters with an
@@ -247,6 +259,31 @@ class Prop(BaseProp):
                 compare("rerun-into-existing-output", read_tree(out_dir("rerun")), ref)
             else:
                 res.violate("variant-run-failed:rerun", str(o.exc)[:200], wit)
+            # (h2) ... or a revision that differed from the present one in white space only (indentation of doccomment
+            #      lines, additional empty doccomment lines): the pages on disk afterwards are those of the present contents
+            import re as _re
+            loc6 = os.path.join(sb, "sixth", "proj")
+            shutil.copytree(loc1, loc6)
+            changed = 0
+            for f in tree.files:
+                wsrev = _re.sub(r"(?m)^([ \t]*)# (\S.*)$", lambda m: f"{m.group(1)}#     {m.group(2)}\n{m.group(1)}#", tree.files[f])
+                changed += wsrev != tree.files[f]
+                with open(os.path.join(loc6, f), "w", encoding="utf-8", newline="") as fh:
+                    fh.write(wsrev)
+            if changed:
+                o = runner.run_main([target(loc6), "-o", out_dir("wsrerun")] + flags, cwd=sb, home=home)
+                first = read_tree(out_dir("wsrerun")) if o.ok else {}
+                for f in tree.files:
+                    with open(os.path.join(loc6, f), "w", encoding="utf-8", newline="") as fh:
+                        fh.write(tree.files[f])
+                o = runner.run_main([target(loc6), "-o", out_dir("wsrerun")] + flags, cwd=sb, home=home)
+                res.count("history_runs")
+                if o.ok:
+                    if first and first != ref:
+                        res.count("whitespace_only_revisions_that_changed_a_page")
+                    compare("rerun-after-whitespace-only-revision", read_tree(out_dir("wsrerun")), ref)
+                else:
+                    res.violate("variant-run-failed:wsrerun", str(o.exc)[:200], wit)
             # (i) the output directory was filled by an earlier run with other settings that give pages of the same length
             #     (a different prefix of equal length): content, not size or age, decides what is on disk afterwards
             eff = prefix if prefix else ("proj" if not single else None)
